@@ -594,6 +594,9 @@ func streamRest(e *Emitter, rng *rand.Rand, tier string) {
 				return [2]string{"inner.deep.leaf", hs(str())}
 			case 9:
 				return [2]string{pick(rng, []string{"book_id", "book_id", "flag", "big"}), ""}
+			case 10:
+				// bytes: values whose base64 form has `-`, `_`, both, neither; every length mod 3
+				return [2]string{"data", hs(pick(rng, []string{"???", ">>>", "?>?>", "abc", "ab", "a", "\xff\xfe\xfd", "~~~~", "hello world"}))}
 			default:
 				return [2]string{"inners", hs("el")}
 			}
@@ -678,8 +681,8 @@ func streamRest(e *Emitter, rng *rand.Rand, tier string) {
 		op.EPath = hs(path)
 		q := []string{}
 		for k := rng.IntN(4); k > 0; k-- {
-			key := pick(rng, []string{"name", "n", "tags", "inner.id", "inner.nums", "inner.deep.leaf", "book_id", "bookId", "flag", "big", "inner", "inners", "nosuch", "inner.nosuch", "name.x", "tags.x", "Inner.id", "", "name.", "inner.", "inner..id", ".name", "inner.id.", "tags.", "."})
-			val := pick(rng, []string{"v", "a%20b", "a+b", "%2F", "12", "-3", "007", "1e3", "2147483648", "null", "true", "TRUE", "1", "", "%zz", "aGVsbG8", "aGVsbG8=", "1.0", " 5", "\"q\""})
+			key := pick(rng, []string{"name", "n", "tags", "inner.id", "inner.nums", "inner.deep.leaf", "book_id", "bookId", "flag", "big", "inner", "inners", "nosuch", "inner.nosuch", "name.x", "tags.x", "Inner.id", "", "name.", "inner.", "inner..id", ".name", "inner.id.", "tags.", ".", "data", "data"})
+			val := pick(rng, []string{"v", "a%20b", "a+b", "%2F", "12", "-3", "007", "1e3", "2147483648", "null", "true", "TRUE", "1", "", "%zz", "aGVsbG8", "aGVsbG8=", "1.0", " 5", "\"q\"", "Pz8_", "Pz8%2F", "Pj4-", "Pj4%2B", "YQ==", "YQ", "YQ=", "YWI=", "YWJj", "Pz8_Pz8%2F", "YQ==YQ=="})
 			q = append(q, key+"="+val)
 		}
 		op.Query = hs(strings.Join(q, "&"))
